@@ -2,7 +2,8 @@
 
 use super::common::*;
 use crate::formulas::{collision_alphabet, pair_family, templates, Alphabet, Gen};
-use crate::report::Report;
+use crate::report::{Report, Violation};
+use serde_json::Value;
 use crate::sem::{self, Checks, Entries};
 use crate::sweep::{label_families, NetCtx};
 use serde_json::json;
@@ -61,7 +62,134 @@ pub fn run(tier: &str) -> Result<Report, String> {
             sem::ops_sweep(&mut rep, &b, &binary_forms, true, ck);
         }
     }
+    // wide models (more than 2^53 state x colour pairs): the README equivalences and three closed-form
+    // expectations for domains that are full / almost full / almost empty, in child processes
+    {
+        use rayon::prelude::*;
+        let models: Vec<&str> = vec!["synthetic:chain60", "synthetic:gated44", "synthetic:chain58p", "synthetic:chain44p2", "synthetic:chain40"];
+        let jobs: Vec<Value> = models.iter().map(|m| json!({"kind": "c02big", "model": m})).collect();
+        let limit = if tier == "quick" { 40.0 } else { 600.0 };
+        let results: Vec<(Value, crate::jobs::JobResult)> = jobs.par_iter().map(|j| (j.clone(), crate::jobs::run(j, limit))).collect();
+        let mut big = vec![];
+        for (j, r) in results {
+            match r {
+                crate::jobs::JobResult::Done(v) => {
+                    if let Some(e) = v.get("error") {
+                        return Err(format!("wide model job {j}: {e}"));
+                    }
+                    rep.evaluations += v["cases"].as_u64().unwrap_or(0) * 2;
+                    rep.add_count("wide_model_cases", v["cases"].as_u64().unwrap_or(0));
+                    for p in v["problems"].as_array().cloned().unwrap_or_default() {
+                        rep.violations.push(Violation { case: json!({"kind": "c02big", "model": j["model"], "only": p["case"]}), what: format!("on {}: {}", j["model"].as_str().unwrap_or(""), p["what"].as_str().unwrap_or("")), size: 60 });
+                    }
+                    big.push(json!({"model": j["model"], "variables": v["variables"], "colours": v["colours"], "pairs_log2": v["pairs_log2"], "domains": v["domains"], "cases": v["cases"], "wall_s": v["wall_s"]}));
+                }
+                crate::jobs::JobResult::Timeout => rep.cap(format!("job {j} exceeded {limit}s and was stopped (no verdict)")),
+                crate::jobs::JobResult::Crashed(e) => return Err(format!("wide model job {j} crashed: {e}")),
+            }
+        }
+        rep.set("wide_models", json!(big));
+    }
     rep.set("slices", json!(slices));
-    rep.rule = "all closed extended formulae with at most max_nodes nodes that contain a wild-card or a domain, plus the extended template families (nested and repeated domains, the same inner domain under different outer domains, pattern and duplicate shapes inside domain scopes) and the pair family (every ordered pair of the collision alphabet joined by & / |, and nested as Q{x} in %d%: (A & @{x}: B)), x every label family (context-set assignment), through model_check_extended_formula(_dirty), compared with the explicit-state oracle on every state x valid colour; plus the operator sweep: every unary/binary operator and every quantifier form with/without domains on EVERY coloured set (and every pair of sets) of tiny networks; distinct_nontrivial = distinct non-trivial (network, labels, verdict table)".into();
+    rep.rule = "all closed extended formulae with at most max_nodes nodes that contain a wild-card or a domain, plus the extended template families (nested and repeated domains, the same inner domain under different outer domains, pattern and duplicate shapes inside domain scopes) and the pair family (every ordered pair of the collision alphabet joined by & / |, and nested as Q{x} in %d%: (A & @{x}: B)), x every label family (context-set assignment), through model_check_extended_formula(_dirty), compared with the explicit-state oracle on every state x valid colour; plus the operator sweep: every unary/binary operator and every quantifier form with/without domains on EVERY coloured set (and every pair of sets) of tiny networks; plus, on synthetic wide models with more than 2^53 state x colour pairs, the three README equivalences for 7 bodies x 7 domains (full, empty, all but one state, all but one (state, colour) pair, one state, ...) and the closed forms `!{x} in %d%: True` = d, `3{x} in %d%: @{x}: ~%d%` = empty, `V{x} in %d%: @{x}: %d%` = everything; distinct_nontrivial = distinct non-trivial (network, labels, verdict table)".into();
     Ok(rep)
+}
+
+/// Child job: README equivalences on a wide model. Domain sets are built with lib-param-bn's set
+/// operations only (no formula evaluation).
+pub fn job(job: &Value) -> Value {
+    use biodivine_hctl_model_checker::model_checking as mc;
+    use biodivine_lib_param_bn::biodivine_std::traits::Set;
+    use biodivine_lib_param_bn::symbolic_async_graph::GraphColoredVertices;
+    use std::collections::HashMap;
+    let t0 = std::time::Instant::now();
+    let name = job["model"].as_str().unwrap_or("");
+    let only = job["only"].as_str();
+    let big = match crate::bigmodels::load(name, 2) {
+        Ok(b) => b,
+        Err(e) => return json!({"error": e}),
+    };
+    let g = &big.graph;
+    let unit = g.mk_unit_colored_vertices();
+    let vars: Vec<_> = g.variables().collect();
+    let vertex = |f: &dyn Fn(usize) -> bool| -> GraphColoredVertices {
+        let mut s = unit.clone();
+        for (i, v) in vars.iter().enumerate() {
+            s = s.fix_network_variable(*v, f(i));
+        }
+        s
+    };
+    let zero = vertex(&|_| false);
+    let ones = vertex(&|_| true);
+    let mark = vertex(&|i| i < 4);
+    let one_colour = unit.colors().pick_singleton();
+    let pair = ones.intersect_colors(&one_colour);
+    let domains: Vec<(&str, GraphColoredVertices)> = vec![
+        ("all but the all-zero state", unit.minus(&zero)),
+        ("all but the all-ones state", unit.minus(&ones)),
+        ("all but one (state, colour) pair", unit.minus(&pair)),
+        ("all but state 1111000..", unit.minus(&mark)),
+        ("only the all-ones state", ones.clone()),
+        ("everything", unit.clone()),
+        ("nothing", g.mk_empty_colored_vertices()),
+    ];
+    let bodies = ["True", "AX {x}", "EX {x}", "~%d%", "%q%", "{x}", "EF {x}"];
+    let mut problems = vec![];
+    let mut cases = 0u64;
+    for (dname, d) in &domains {
+        let ctx: HashMap<String, GraphColoredVertices> = HashMap::from([("d".to_string(), d.clone()), ("q".to_string(), unit.minus(&zero).minus(&mark))]);
+        let eval = |text: &str| mc::model_check_extended_formula_dirty(text, g, &ctx);
+        let mut compare = |case: String, lhs: &str, rhs: Result<GraphColoredVertices, String>, rhs_desc: &str| {
+            if let Some(o) = only {
+                if o != case {
+                    return;
+                }
+            }
+            cases += 1;
+            let what = match (crate::report::guarded(std::panic::AssertUnwindSafe(|| eval(lhs))), rhs) {
+                (Ok(Ok(a)), Ok(b)) if a.as_bdd() == b.as_bdd() => None,
+                (Ok(Ok(a)), Ok(b)) => Some(format!("domain %d% = {dname}: `{lhs}` has {} elements but {rhs_desc} has {} (they differ in {} elements)", a.exact_cardinality(), b.exact_cardinality(), a.minus(&b).union(&b.minus(&a)).exact_cardinality())),
+                (Ok(Err(e)), _) => Some(format!("domain %d% = {dname}: `{lhs}` returns Err: {e}")),
+                (Err(p), _) => Some(format!("domain %d% = {dname}: `{lhs}` panics: {p}")),
+                (_, Err(e)) => Some(format!("domain %d% = {dname}: reference `{rhs_desc}` returns Err: {e}")),
+            };
+            if let Some(w) = what {
+                if problems.len() < 6 {
+                    problems.push(json!({"case": case, "what": w}));
+                }
+            }
+        };
+        // closed forms (no evaluation on the right-hand side)
+        compare(format!("{dname}/closed/bind"), "!{x} in %d%: True", Ok(d.clone()), "the set d itself");
+        compare(format!("{dname}/closed/exists"), "3{x} in %d%: @{x}: ~%d%", Ok(g.mk_empty_colored_vertices()), "the empty set");
+        compare(format!("{dname}/closed/forall"), "V{x} in %d%: @{x}: %d%", Ok(unit.clone()), "the unit set");
+        for body in bodies {
+            // EF {x} on the chains is a reachability relation over 2 x n variables: only on the gated model
+            if body == "EF {x}" && !name.contains("gated") {
+                continue;
+            }
+            let forms = [
+                (format!("!{{x}} in %d%: {body}"), format!("!{{x}}: %d% & ({body})")),
+                (format!("3{{x}} in %d%: @{{x}}: {body}"), format!("3{{x}}: @{{x}}: %d% & ({body})")),
+                (format!("V{{x}} in %d%: @{{x}}: {body}"), format!("V{{x}}: @{{x}}: %d% => ({body})")),
+            ];
+            for (lhs, rhs) in forms {
+                let r = match crate::report::guarded(std::panic::AssertUnwindSafe(|| eval(&rhs))) {
+                    Ok(r) => r,
+                    Err(p) => Err(format!("panic: {p}")),
+                };
+                compare(format!("{dname}/{lhs}"), &lhs, r, &format!("`{rhs}`"));
+            }
+        }
+    }
+    let colours = g.unit_colors().approx_cardinality();
+    json!({"cases": cases, "problems": problems, "variables": g.num_vars(), "colours": colours, "pairs_log2": unit.approx_cardinality().log2(), "domains": domains.iter().map(|d| d.0).collect::<Vec<_>>(), "wall_s": t0.elapsed().as_secs_f64()})
+}
+
+pub fn replay_big(case: &Value) -> Option<String> {
+    let v = job(&json!({"kind": "c02big", "model": case["model"], "only": case["only"]}));
+    if let Some(e) = v.get("error") {
+        return Some(format!("job error: {e}"));
+    }
+    v["problems"].as_array().and_then(|a| a.first()).map(|p| p["what"].as_str().unwrap_or("").to_string())
 }
